@@ -36,6 +36,19 @@ def call(ex, st, base, attr, recv, args, kwargs, node):
     eng = ex.eng
     base = ex.narrow(st, base)
     ty = base.ty
+    if ty in ("py", "obj") and attr == "toordinal" and not args:
+        # datetime.date / datetime.datetime: proleptic Gregorian ordinal (observer spec function, library range)
+        t = base.t if ty == "py" else box(base)
+        isdate = z3.And(Py.is_obj(t), z3.Or(Py.cls(t) == models.CLSID["datetime.date"], Py.cls(t) == models.CLSID["datetime.datetime"]))
+        for st1, r in ex.need(st, isdate, "AttributeError", ".toordinal"):
+            if r is not None:
+                yield st1, r
+                continue
+            v = eng.spec_apply("spec.core", "date_ordinal", [V("py", t)])
+            st1.assume(z3.And(v.t >= 1, v.t <= 3652059))
+            eng.assumptions_used.add("datetime.date objects: 1 <= toordinal() <= 3652059 (0001-01-01 .. 9999-12-31, library invariant)")
+            yield st1, v
+        return
     if ty == "py":
         # methods that tell us the kind the code expects
         if attr in ("get", "items", "keys", "values", "pop", "update", "setdefault", "copy", "popitem"):
